@@ -168,7 +168,7 @@ def run(run):
             finally:
                 shutil.rmtree(root, ignore_errors=True)
         # ---- projects of many small files (hundreds to thousands): every file is merged, the scan ends
-        for nf in ([450, 1300] if quick else [250, 450, 650, 1300, 2600]):
+        for nf in ([450, 1300, 2000] if quick else [250, 450, 650, 1300, 2000, 2600]):
             root = C.scratch("c07big")
             try:
                 for i in range(nf):
@@ -176,7 +176,8 @@ def run(run):
                     os.makedirs(dname, exist_ok=True)
                     with open(os.path.join(dname, "T%d.java" % i), "w") as f:
                         f.write("package p%02d;\nclass T%d { int f%d; void m%d() { f%d = %d; } }\n" % (i % 17, i, i, i, i, i))
-                for procs in ([0] if quick else [1, 16]):
+                # (one processor: the collector falls behind the workers and results queue up by the hundred)
+                for procs in (([1] if nf == 2000 else [0]) if quick else [1, 16]):
                     r = h.call(op="scan-order", dir=root, graph="g", order=[], procs=procs, timeout=120)
                     run.count(("many-files", nf, procs))
                     stats["many_file_scans"] += 1
